@@ -148,11 +148,15 @@ func c11ByPower(vs []*types.Validator) []*types.Validator {
 	return out
 }
 
+// c11EvMaxBytes is the chain's Evidence.MaxBytes; part "smalllimit" lowers it before the chain is built so that the pending
+// evidence of a few items exceeds what one block may carry.
+var c11EvMaxBytes int64 = 1 << 20
+
 func c11ConsensusParams() tmproto.ConsensusParams {
 	p := *types.DefaultConsensusParams()
 	p.Evidence.MaxAgeNumBlocks = c11MaxBlocks
 	p.Evidence.MaxAgeDuration = c11MaxDur
-	p.Evidence.MaxBytes = 1 << 20
+	p.Evidence.MaxBytes = c11EvMaxBytes
 	return p
 }
 
